@@ -31,6 +31,19 @@ const (
 // client once the error has been written indicating the end of a command cycle.
 // https://www.postgresql.org/docs/current/static/protocol-error-fields.html
 func ErrorCode(writer *buffer.Writer, err error) error {
+	err = writeErrorResponse(writer, err)
+	if err != nil {
+		return err
+	}
+
+	// NOTE: we are writing a ready for query message to indicate the end of a
+	// command cycle.
+	return readyForQuery(writer, types.ServerIdle)
+}
+
+// writeErrorResponse writes a single ErrorResponse message for the given error
+// without ending the command cycle.
+func writeErrorResponse(writer *buffer.Writer, err error) error {
 	desc := psqlerr.Flatten(err)
 
 	writer.Start(types.ServerErrorResponse)
@@ -78,12 +91,5 @@ func ErrorCode(writer *buffer.Writer, err error) error {
 	}
 
 	writer.AddNullTerminate()
-	err = writer.End()
-	if err != nil {
-		return err
-	}
-
-	// NOTE: we are writing a ready for query message to indicate the end of a
-	// command cycle.
-	return readyForQuery(writer, types.ServerIdle)
+	return writer.End()
 }
